@@ -1904,10 +1904,14 @@ func (k *Kernel) handleReplayedHeader(
 		// It is a valid case when we saw >2/3 total precommits
 		// and advanced the round due to lack of consensus,
 		// but then a late vote arrives which caused a particular block to be precommitted.
-		panic(fmt.Errorf(
-			"TODO: handle replay for earlier round (exp=%d got=%d)",
-			s.Voting.Round, proof.Round,
-		))
+		// Until that is supported, refuse the replay instead of crashing the kernel:
+		// the replay source is not trusted input.
+		return tmelink.ReplayedHeaderValidationError{
+			Err: fmt.Errorf(
+				"replay for a round (%d) earlier than the voting round (%d) is not supported",
+				proof.Round, s.Voting.Round,
+			),
+		}
 	}
 
 	if proof.Round > s.Voting.Round {
@@ -2084,9 +2088,19 @@ func (k *Kernel) handleReplayedHeader(
 
 	// Now ensure we have majority vote power,
 	// otherwise the replay cannot proceed.
+	headerProof := tempProofs[string(header.Hash)]
+	if headerProof == nil {
+		return tmelink.ReplayedHeaderValidationError{
+			Err: fmt.Errorf(
+				"commit proof has no signatures for the replayed header's hash %x",
+				header.Hash,
+			),
+		}
+	}
+
 	var blockPow uint64
 	var bs bitset.BitSet
-	tempProofs[string(header.Hash)].SignatureBitSet(&bs)
+	headerProof.SignatureBitSet(&bs)
 	for i, ok := bs.NextSet(0); ok && int(i) < len(header.ValidatorSet.Validators); i, ok = bs.NextSet(i + 1) {
 		blockPow += header.ValidatorSet.Validators[int(i)].Power
 	}
